@@ -201,7 +201,7 @@ func (env *SEnv) evalPlace(e *SExpr) *SVal {
 		if e.Op == "forall" {
 			return &SVal{T: Forall(vars, body, autoPatterns(body.S, vars)...), Go: types.Typ[types.Bool]}
 		}
-		return &SVal{T: Exists(vars, body), Go: types.Typ[types.Bool]}
+		return &SVal{T: Exists(vars, body, autoPatterns(body.S, vars)...), Go: types.Typ[types.Bool]}
 	}
 	env.fail("cannot evaluate spec expression of kind %s", e.Kind)
 	return nil
@@ -699,7 +699,13 @@ func autoPatterns(body string, vars []Term) [][]Term {
 			continue
 		}
 		// triggers must not contain quantifiers or let-bound structure
-		if strings.Contains(sub, "(forall ") || strings.Contains(sub, "(exists ") {
+		bad := false
+		for _, op := range []string{"(forall ", "(exists ", "(ite ", "(or ", "(and ", "(not ", "(=> ", "(= ", "(< ", "(<= ", "(> ", "(>= ", "(_ is ", "((_ is "} {
+			if strings.Contains(sub, op) {
+				bad = true
+			}
+		}
+		if bad {
 			continue
 		}
 		seen[sub] = true
